@@ -74,6 +74,22 @@ def undefined_variable_rules(ctx, m, gcc, r5: str, r8: str) -> None:
     handlers = [h for h in ast.walk(it) if isinstance(h, ast.ExceptHandler) and h.type is not None and "FlowIRVariableUnknown" in source.src(h.type)
                 and source.enclosing_def(h) is it]
     ctx.floor(r5, len(handlers), 2, "FlowIRVariableUnknown handlers in interpolate")
+    # the chain of variables referring to variables is followed to its end: the recursion of interpolate (and of its nested resolver) is
+    # not cut off by a counter - a parameter / local that the recursive call passes on as '<itself> + <constant>' and that a test compares
+    counters = set()
+    fns = [it] + [f_ for q_, f_ in m.functions.items() if q_.startswith("FlowIR.interpolate.")]
+    for f_ in fns:
+        for c_ in ast.walk(f_):
+            if isinstance(c_, ast.Call) and last_attr(c_) == "interpolate":
+                for v_ in list(c_.args) + [k.value for k in c_.keywords]:
+                    if isinstance(v_, ast.BinOp) and isinstance(v_.op, (ast.Add, ast.Sub)) and isinstance(v_.left, ast.Name) and isinstance(v_.right, ast.Constant):
+                        counters.add(v_.left.id)
+    caps = [t for f_ in fns for t in ast.walk(f_) if isinstance(t, ast.Compare) and any(isinstance(x, ast.Name) and x.id in counters for x in ast.walk(t))]
+    ctx.ob(r8, caps[0] if caps else it, not caps,
+           "the recursion of interpolate is not bounded by a depth counter" if not caps else
+           "interpolate passes %s on as '<counter> + 1' and tests it (%s): a chain of DEFINED variables that is longer than the cap is not "
+           "substituted to its end - the query raises instead of returning the value the layering defines" % (
+               ", ".join(sorted(counters)), short(caps[0], 50)), construct="interpolate: no depth cap on chains of variables")
     for h in handlers:
         bad = handler_swallow_paths(c5, h, ign + prim)
         ctx.ob(r5, h, not bad,
@@ -221,6 +237,25 @@ def check_flags_through_recursion(ctx, fl) -> None:
                        "variable inside a list-valued option (references, executors, shutdownOn ..) is swallowed and '%%(name)s' stays in the "
                        "resolved configuration" % (name, fl_, short(v, 30), "(%s)" % ", ".join(ps)), construct="%s: recursive call <- %s" % (name, fl_))
     ctx.floor(RID, n, 4, "mode flags bound by self-recursive calls of the resolvers in flowir.py")
+
+
+def check_lookups_are_returned(ctx, mods) -> None:
+    """A query method hands back what it looked up: no statement of the configuration modules is a bare call of a getter
+    (`<obj>.get_*(..)` as an expression statement) - the value is computed and dropped, the method falls through and answers None."""
+    RID = "C04.R15-a-looked-up-value-is-returned"
+    n = 0
+    for m in mods:
+        for q, f in sorted(m.functions.items()):
+            n += 1
+            for st in source.walk_own(f):
+                if isinstance(st, ast.Expr) and isinstance(st.value, ast.Call) and (last_attr(st.value) or "").startswith("get_") \
+                        and isinstance(st.value.func, ast.Attribute):
+                    ctx.analysed(f)
+                    ctx.ob(RID, st, False,
+                           "%s calls %s and drops the result: on this branch the method answers None instead of the value of the variable / option "
+                           "the layering defines" % (q, short(st.value, 60)), construct="%s: result of %s is used" % (q.split(".")[-1], last_attr(st.value)))
+    ctx.floor(RID, n, 200, "functions of conf.py / flowir.py / graph.py scanned for dropped getter results")
+    ctx.ob(RID, mods[0].tree, True, "%d functions scanned, no getter result is dropped" % n, trivial=True, construct="getter results are used")
 
 
 def check_scopes_unshared(ctx, fl) -> None:
@@ -437,6 +472,8 @@ def run(ctx) -> None:
     ctx.rule("C04.R13-strictness-passes-through-recursion", "a self-recursive call of a resolver (fill_in, interpolate, replace_strings ..) binds each mode "
              "flag of the signature (ignore_errors, is_primitive, use_symbol_table, in_place, raw) - matched by keyword or position - to the "
              "caller's parameter of the same name; fill_in binds both of its flags in every recursive call")
+    ctx.rule("C04.R15-a-looked-up-value-is-returned", "no expression statement of conf.py / flowir.py / graph.py is a bare call of a get_* method: a query "
+             "that looks a value up hands it back")
     ctx.rule("C04.R14-one-dictionary-per-variable-scope", "the loader (inject_default_values) rebinds the global variables of every platform and every "
              "stage's variables of every platform to a fresh dictionary, so that the setters - which write through these dictionaries - change "
              "one scope only even when the document made several scopes share one object")
@@ -454,6 +491,7 @@ def run(ctx) -> None:
     check_platform_threaded(ctx, m)
     check_flags_through_recursion(ctx, m)
     check_scopes_unshared(ctx, m)
+    check_lookups_are_returned(ctx, [ctx.repo.module(CONF), m, ctx.repo.module("python/experiment/model/graph.py")])
     n12 = check_scope_per_item(ctx, m, "C04.R12-scope-per-component",
                                "a component-level variable that shadows a global or stage variable leaks into the sibling components visited after it - their "
                                "references resolve to the sibling's value instead of the layered one")
